@@ -538,6 +538,23 @@ class ValueMachine(Machine):
             if any(isinstance(a, Sym) for a in args):
                 return self.fma(*args)
             return Machine.intrinsic(self, name, args, i)
+        if 'ptestz' in name:
+            # ZF of (a AND b): 1 when every lane of a & b is zero
+            n = 4 if '256' in name else 2
+            la, lb = self.lanes_of(args[0], n), self.lanes_of(args[1], n)
+            lanes = []
+            for x, y in zip(la, lb):
+                if x is y:
+                    lanes.append(x)
+                elif is_int(x) and is_int(y):
+                    lanes.append(x & y)
+                elif isinstance(x, (Sym, int)) and isinstance(y, (Sym, int)):
+                    lanes.append(sym('and', 64, x, y))
+                else:
+                    return Machine.intrinsic(self, name, args, i)
+            if all(is_int(x) for x in lanes):
+                return 1 if all(x == 0 for x in lanes) else 0
+            return sym('allzero', *lanes)
         if 'vfmaddsub' in name:
             n = t['lanes']
             ls = [self.lanes_of(a, n) for a in args[:3]]
